@@ -19,6 +19,7 @@ Ghost file sections (contracts/ghost/<unit>.ghost), all keyed by item label:
                                       into `#[verifier::external_body] fn name(params) -> ret`
                                       and replaced by the call name(args); following lines (up to
                                       the next @@) are the *assumed* contract of the hole
+  @@ <label> bodyend <k>              lines inserted at the end of the body of loop k
   @@ <label> attr                     lines inserted before the item (e.g. #[verifier::...])
 Every inserted line is tagged with a trailing //@ so the erasure check can remove it again.
 """
@@ -207,7 +208,7 @@ def apply_ghost(text, label, ghost, report):
     secs = ghost.get(label)
     extra_items = []
     # loop ordinals refer to the extracted text: mark every loop keyword before anything moves
-    if any(s_[0] in ("desugar", "loop", "body", "afterloop", "beforeloop", "loopattr", "exhausted") for s_ in secs):
+    if any(s_[0] in ("desugar", "loop", "body", "bodyend", "afterloop", "beforeloop", "loopattr", "exhausted") for s_ in secs):
         pos0 = loop_positions(text)
         for k in range(len(pos0), 0, -1):
             kw_i = pos0[k - 1][0]
@@ -410,6 +411,15 @@ def apply_ghost(text, label, ghost, report):
             if i_ < 0:
                 raise Undecided("lost anchor in %s: loop #%d" % (label, k))
             text = text[:i_] + "\n" + "\n".join(tag([l.strip() for l in body if l.strip()])) + "\n" + text[i_:]
+            continue
+        if kind == "bodyend":
+            # just before the closing brace of the body of a (not desugared) loop
+            k = int(arg.split()[0])
+            kw_i, brace_i, kw = marked_loop(k)
+            at = rustlex.match_brace(rustlex.mask(text), brace_i)
+            ls = text.rfind("\n", 0, kw_i) + 1
+            ind = re.match(r"[ \t]*", text[ls:]).group(0) + "    "
+            text = text[:at].rstrip() + "\n" + "\n".join(tag([ind + l for l in body])) + "\n" + ind[:-4] + text[at:]
             continue
         if kind in ("body", "afterloop", "beforeloop"):
             k = int(arg.split()[0])
@@ -654,13 +664,34 @@ def build_unit(unit, outdir, ghost_override=None, variant=None):
     for line in open(tmpl).read().split("\n"):
         if line.startswith("//%include "):
             out.append(open(os.path.join(ROOT, "contracts", line.split(None, 1)[1].strip())).read())
-        elif line.startswith("//%item "):
-            _, srcfile, label, hdr = line.split(None, 3)
-            nth = 0
-            m = re.match(r"nth=(\d+)\s+(.*)", hdr)
-            if m:
-                nth, hdr = int(m.group(1)), m.group(2)
-            raw, l0, l1 = extract_item(srcfile, hdr.strip(), nth)
+        elif line.startswith("//%item ") or line.startswith("//%slice "):
+            if line.startswith("//%slice "):
+                # //%slice <src file> <label> <fn header regex> ;; <first line> ;; <last line> ;; <signature> ;; <tail expr>
+                # the statements from <first line> to <last line> (stripped text, first occurrence each, inside the
+                # named function) are taken verbatim as the body of a function of their free variables
+                _, srcfile, label, rest_ = line.split(None, 3)
+                hdr, first, last, sig, tail = [x.strip() for x in rest_.split(";;")]
+                whole, f0, _f1 = extract_item(srcfile, hdr, 0)
+                wl = whole.split("\n")
+                try:
+                    i0 = next(k for k, l in enumerate(wl) if l.strip() == first)
+                    i1 = next(k for k, l in enumerate(wl) if k >= i0 and l.strip() == last)
+                except StopIteration:
+                    raise Undecided("lost slice anchor in %s (%s): `%s` .. `%s`" % (srcfile, label, first, last))
+                body = dedent("\n".join(wl[i0:i1 + 1]))
+                raw = sig + " {\n" + "\n".join("    " + l if l.strip() else l for l in body.split("\n")) + "\n    " + tail + "\n}"
+                l0, l1 = f0 + i0, f0 + i1
+                report.setdefault("slices", []).append({"label": label, "file": "src/" + srcfile, "lines": [l0, l1],
+                    "of_function": hdr, "signature": sig, "tail": tail,
+                    "dropped": "everything of the enclosing function outside these lines; the free variables of the block become parameters"})
+                _bump(report, "S1 block slice wrapped as a function of its free variables")
+            else:
+                _, srcfile, label, hdr = line.split(None, 3)
+                nth = 0
+                m = re.match(r"nth=(\d+)\s+(.*)", hdr)
+                if m:
+                    nth, hdr = int(m.group(1)), m.group(2)
+                raw, l0, l1 = extract_item(srcfile, hdr.strip(), nth)
             text = dedent(raw)
             for nfn in NORMALISATIONS:
                 text = nfn(text, report["normalisations"])
